@@ -175,6 +175,26 @@ def run(check, an: Analysis):
     check.instance('suppress', 'until:own-signal-ends-silently', bool(silent) and by_own,
                    where_fn(aexit.fn), 'for its own interrupt the block ends without '
                    'raising (%d such paths)' % len(silent), analysed=len(summ.paths))
+    for recv in _scope.scope_receivers(an):
+        raexit = an.callee(recv, '__aexit__')
+        verdict, n, bad = True, 0, None
+        for path in an.paths(raexit, 'none'):
+            for index, event in enumerate(path.events):
+                if event.kind == 'susp' and event.depth == 0 and \
+                        event['exit'] == CANCEL_SCOPE:
+                    n += 1
+                    judged = any(e.kind in ('enter', 'call') and
+                                 is_call_to(e, '_propagate_exceptions')
+                                 for e in path.events[index:])
+                    if not judged:
+                        verdict = False
+                        bad = bad or (path, index)
+        check.instance('suppress', '__aexit__[%s]:signal-during-exit-is-judged'
+                       % recv.rsplit('.', 1)[-1], verdict and n > 0, where_fn(raexit.fn),
+                       'a scope signal arriving at any suspension of the graceful exit '
+                       '(%d sites on paths) is handed to _propagate_exceptions, so the '
+                       'scope\'s own signal ends the block silently' % n,
+                       path=rules.path_lines(*bad) if bad else None, analysed=n)
     # ---- I ------------------------------------------------------------------
     check_immediacy(check, an, 'I')
     check.floor('I', 20)
